@@ -518,7 +518,8 @@ def spec_vs_gcc(c):
 A_ID = ['a', 'b', 'c']
 A_NUM = ['1', '2', '0x1f']
 A_STR = ['"s"', '"x y"', '"q\\"r"', "'c'", '"b\\\\n"']
-A_PUN = ['+', ',', '(', ')', '-', '*', '[', ']']
+# brackets and braces do NOT nest macro arguments (C11 6.10.3p11: only parentheses do): commas between them split arguments
+A_PUN = ['+', ',', '(', ')', '-', '*', '[', ']', '{', '}', ',', '{', '}']
 
 def render(lines):
     """lines: list of lists of (text, space_before)"""
@@ -716,12 +717,14 @@ def gen_operand_grid(thorough):
     vbodies = ['<__VA_ARGS__>', '<x|__VA_ARGS__>', '#__VA_ARGS__', 'x ## __VA_ARGS__', '__VA_ARGS__ ## x',
                'g(x __VA_OPT__(,) __VA_ARGS__)', '__VA_OPT__(x x) |', 'a __VA_OPT__(#x x ## x) b', 'g(x , ## __VA_ARGS__)',
                '__VA_OPT__(a , b)', 'x __VA_OPT__() y']
-    vargs = ['', '1', '1,', '1,2', '1,2,3', '1,,3', ',', '1,(2,3)', 'M', '1,M', '1, f(2) ,3', '(1,2)']
+    # braces and brackets do NOT nest macro arguments (C11 6.10.3p11: only parentheses do): a comma between them separates arguments
+    vargs = ['', '1', '1,', '1,2', '1,2,3', '1,,3', ',', '1,(2,3)', 'M', '1,M', '1, f(2) ,3', '(1,2)',
+             '{1,2}', '1,{2,3}', '[1,2],3', '},{', '{', '{(1,2),3}', '{1,2},{3,4}']
     for body in vbodies:
         for a in vargs:
             out.append(f'#define M 9 8\n#define f(x, ...) {body}\n[ f({a}) ]\n')
     for body in ['<__VA_ARGS__>', '#__VA_ARGS__', '__VA_OPT__(a) b', 'g(0 , ## __VA_ARGS__)']:
-        for a in ['', '1', '1,2', ',', '(,),']:
+        for a in ['', '1', '1,2', ',', '(,),', '{1,2}', '},{']:
             out.append(f'#define f(...) {body}\n[ f({a}) ]\n')
     return out
 
